@@ -17,7 +17,8 @@ def _is_input_dtype(node):
     """<data>.dtype for a data-valued name"""
     if isinstance(node, ast.Attribute) and node.attr == "dtype":
         base = norm(node.value)
-        return base in DATA_NAMES or base.endswith((".values", ".data")) and base.split(".")[0] in ("self", "uxda", "data", "d_var")
+        head = base.split(".")[0].split("[")[0]
+        return base in DATA_NAMES or base.endswith((".values", ".data")) and head in ("self", "uxda", "data", "d_var") or head.startswith("source_")
     return False
 
 
